@@ -21,6 +21,8 @@ GUARDS = [
     (r"S\.wrapOKB = true", "(family_wrapOK _ {hS})"),
     (r"S\.labelsOKB = true", "(family_labelsOK _ {hS})"),
     (r"textStableC S = true", "(family_textStableC _ {hS})"),
+    (r"S\.closableB = true", "(family_closable _ {hS})"),
+    (r"PM\.FromDom\.leafOkB S = true", "(family_leafOk _ {hS})"),
     (r"C01\.TextStable S", "(textLoop_of_B _ (family_textLoop _ {hS})).stable"),
     (r"LeafEmpty S", "(leafEmpty_of_B (family_leafEmpty _ {hS}))"),
     (r"LiveSchema S", "(liveSchema_of_ok " + OK + ")"),
@@ -41,11 +43,16 @@ TARGETS = {
     "C01": ["addMark_applies", "removeMark_applies"],
     "C04": ["replace_undo_transitive", "removeMarkStep_undo", "addMarkStep_undo", "markHistory_undo", "markHistory_undo_bmp",
             "family_step", "family_history_undo", "family_history_undo_run", "opHistory_undo", "structHistory_undo_bmp",
-            "structHistory_undo_bmp'", "mixedHistory_undo_bmp"],
+            "structHistory_undo_bmp'", "mixedHistory_undo_bmp",
+            "delete_residual", "delete_residual_around", "insertInline_residual", "insertInline_residual_around",
+            "replace_residual_of_inv"],
     "C11": ["fitStep_decreases", "fitLoop_outOfFuel_exact", "fitLoop_terminates", "replaceStep_outOfFuel_cycle",
             "replaceStep_not_outOfFuel", "fit_no_internal_partial", "replaceStep_total_partial", "delete_total",
             "delete_total_respects", "deleteRange_total", "insertInline_total", "fit_emits_wf", "coherent_invariant",
-            "inStep_invariant", "delete_emits_wf", "deleteRange_emits_wf", "insertInline_emits_wf"],
+            "inStep_invariant", "delete_emits_wf", "deleteRange_emits_wf", "insertInline_emits_wf",
+            "delete_emits_valid_payload", "deleteRange_emits_valid_payload", "delete_emits_payloadValid",
+            "deleteRange_emits_payloadValid", "insertInline_emits_valid_payload", "payloadInv_step",
+            "fit_emits_valid_payload_of_inv"],
     "C12": ["canJoin_join_applies", "liftTarget_lift_applies_flat", "liftTarget_lift_applies", "insertPoint_insert_applies",
             "dropPoint_drop_applies_closed", "joinPoint_join_applies", "insertPoint_insert_text_applies",
             "insertPoint_insert_marked_top"],
